@@ -1,0 +1,51 @@
+//go:build verif
+
+package xtime
+
+// Contracts for the verification harness under /verif (comment-only file).
+//
+// C16 (throttle: "events timed outside the retained window ...", the bucket of an event is
+// a function of its time stamp): parseUnixTime turns "<sec>" / "<sec>.<fraction>" into an
+// instant with integer arithmetic only.  With a fraction the whole part is the second -
+// exactly the integer that was parsed - and the nanoseconds are built from the parsed
+// fraction; nothing goes through floating point (float64 has about 238 ns resolution at
+// today's epoch seconds: a time within that distance of a bucket end would be rounded
+// into the next bucket).  One instant is built per call, from what was parsed.
+
+//@ func parseUnixTime
+//@   ghost np int = 0
+//@   ghost v1 int = 0
+//@   ghost v2 int = 0
+//@   ghost nu int = 0
+//@   ensures isnil(result1) ==> nu == 1
+//@   callee Split(s, sep) (r)
+//@     requires sep == "."
+//@     pure
+//@     ensures len(r) >= 1
+//@   callee ParseInt(s, base, bits) (v, e)
+//@     requires base == 10 && bits == 64 && np < 2
+//@     pure
+//@     set v1 := ite(np == 0, v, v1)
+//@     set v2 := ite(np == 1, v, v2)
+//@     set np := np + 1
+//@   callee Pow10(n) (r)
+//@     requires 1 <= n && n <= 9
+//@     pure
+//@   callee Unix(sec, nsec) (t)
+//@     requires nu == 0 && np >= 1
+//@     requires np == 2 ==> sec == v1
+//@     requires np == 1 && format == unixTimeSec ==> sec == v1 && nsec == 0
+//@     requires np == 1 && v1 >= 0 && format == unixTimeMilli ==> sec == v1 / 1000 && nsec == (v1 % 1000) * 1000000
+//@     requires np == 1 && v1 >= 0 && format == unixTimeMicro ==> sec == v1 / 1000000 && nsec == (v1 % 1000000) * 1000
+//@     requires np == 1 && v1 >= 0 && format == unixTimeNano ==> sec == v1 / 1000000000 && nsec == v1 % 1000000000
+//@     pure
+//@     set nu := nu + 1
+//@   callee ParseFloat(s, bits) (v, e)
+//@     requires false
+//@   callee Modf(f) (i, fr)
+//@     requires false
+//@   callee Round(f) (r)
+//@     requires false
+//@   callee Errorf(f, a) (e)
+//@     pure
+//@     ensures e != nil
